@@ -579,6 +579,13 @@ def _unroll_table_loops(tree: ast.Module) -> None:
     class _T(ast.NodeTransformer):
         depth = 0
         local_stores: List[set] = []
+        methods: List[set] = []
+
+        def visit_ClassDef(self, node):  # type: ignore[no-untyped-def]
+            self.methods.append({x.name for x in node.body if isinstance(x, (ast.FunctionDef, ast.AsyncFunctionDef))})
+            self.generic_visit(node)
+            self.methods.pop()
+            return node
 
         def visit_FunctionDef(self, node):  # type: ignore[no-untyped-def]
             stores = {x.id for x in ast.walk(node) if isinstance(x, ast.Name) and not isinstance(x.ctx, ast.Load)}
@@ -623,8 +630,18 @@ def _unroll_table_loops(tree: ast.Module) -> None:
                         if isinstance(x.ctx, ast.Load) and x.id in env and x.id != "_":
                             return ast.copy_location(copy.deepcopy(env[x.id]), x)
                         return x
+                meths = self.methods[-1] if self.methods else set()
+
+                class _M(ast.NodeTransformer):
+                    # a row element that is a plain function of the class body, applied to self: `make(self)` is `self.make()`
+                    def visit_Call(s_, x):  # type: ignore[no-untyped-def]  # noqa: N805
+                        s_.generic_visit(x)
+                        if isinstance(x.func, ast.Name) and x.func.id in meths and x.args and isinstance(x.args[0], ast.Name) and x.args[0].id == "self":
+                            return ast.copy_location(ast.Call(func=ast.Attribute(value=ast.Name(id="self", ctx=ast.Load()), attr=x.func.id, ctx=ast.Load()),
+                                                              args=x.args[1:], keywords=x.keywords), x)
+                        return x
                 for st in node.body:
-                    new = _Beta().visit(_S().visit(copy.deepcopy(st)))
+                    new = _M().visit(_Beta().visit(_S().visit(copy.deepcopy(st))))
                     ast.copy_location(new, st)
                     out.append(new)
             for x in out:
